@@ -310,14 +310,23 @@ func unmarshalUnprotected(key any, value cbor.RawMessage) (any, error) {
 // unmarshalAsCountersignature produces a Countersignature struct or a list of
 // Countersignatures.
 func unmarshalAsCountersignature(value cbor.RawMessage) (any, error) {
+	// The decoders are invoked directly: the generic decoder turns null and
+	// undefined into a zero value (or a nil list element) without consulting
+	// them, which would let a non-countersignature through.
 	var result1 Countersignature
-	err := decMode.Unmarshal(value, &result1)
-	if err == nil {
+	if err := result1.UnmarshalCBOR(value); err == nil {
 		return &result1, nil
 	}
-	var result2 []*Countersignature
-	err = decMode.Unmarshal(value, &result2)
-	if err == nil {
+	var items []cbor.RawMessage
+	if err := decMode.Unmarshal(value, &items); err == nil && len(items) > 0 {
+		result2 := make([]*Countersignature, 0, len(items))
+		for _, item := range items {
+			countersignature := &Countersignature{}
+			if err := countersignature.UnmarshalCBOR(item); err != nil {
+				return nil, errors.New("invalid Countersignature object / list of objects")
+			}
+			result2 = append(result2, countersignature)
+		}
 		return result2, nil
 	}
 	return nil, errors.New("invalid Countersignature object / list of objects")
